@@ -325,7 +325,8 @@ theorem iInv_content {g : Graph} (hi : IInv g) : ∀ id f, (decl g).ipsets id = 
 /-- DECLARED IP SETS = SPECIFICATION -/
 theorem ipsets_eq_fresh {N : Numbering} {H : IdFn} {s : Bool} {g : Graph} {ds : DS} (hx : XInv N H s g ds)
     (hr : RsInv H g) (hi : IInv g) (hn : DSNodup ds) (hnn : (mkeys ds.netsets).Nodup)
-    (hinj : ∀ d d' : IpSetDef, H d = H d' → d = d')
+    (hinj : ∀ d d' : IpSetDef, H d = H d' → (∃ u, mget g.rs.sets u = some d) →
+      (∃ u, mget (ds.activeSets H) u = some d') → d = d')
     (hpol : ∀ k, mget g.active (.pol k) = (mget ds.activePols k).map (·.rules)) (hpk : (mkeys ds.activePols).Nodup)
     (hprof : ∀ p, mget g.active (.prof p) = mget ds.activeProfs p) (id : String) :
     (decl g).ipsets id =
@@ -402,7 +403,8 @@ theorem ipsets_eq_fresh {N : Numbering} {H : IdFn} {s : Bool} {g : Graph} {ds : 
       | none => rw [hs1] at hdom; cases hdom
       | some d1 =>
         obtain ⟨r, _, hr0⟩ := mget_flatMap_some (currentSets H) id d0 _ hL
-        have e : d1 = d0 := hinj d1 d0 ((hx.setsH id d1 hs1).trans (mget_currentSets hr0).symm)
+        have e : d1 = d0 := hinj d1 d0 ((hx.setsH id d1 hs1).trans (mget_currentSets hr0).symm) ⟨id, hs1⟩
+          ⟨id, by rw [mget_activeSets]; exact hL⟩
         subst e
         have hset : C04.C01Ext.setView g.idx id = some (trD d1) := by rw [hx.sets id, hs1]; rfl
         funext str
